@@ -8,6 +8,8 @@ CONSTANTS
   MaxIntents = 1
   TxnId = {"t1", "t2"}
   WithFaults = FALSE
+  FailKinds = {"none", "device"}
+  TmoKinds = {"short", "long"}
   WithLifecycle = TRUE
   InitDevice <- CoreInit
 VIEW view
